@@ -6,7 +6,7 @@ static std::vector<Point64> sample_pts(Rng& r, const Paths64& all, bool rect, in
   int64_t lx = 1 << 30, ly = 1 << 30, hx = -(1 << 30), hy = -(1 << 30);
   for (auto& p : all) for (auto& q : p) { lx = std::min(lx, q.x); hx = std::max(hx, q.x); ly = std::min(ly, q.y); hy = std::max(hy, q.y); }
   std::vector<Point64> pts;
-  if (all.empty()) { ps = 1; pts.emplace_back(0, 0); return pts; }
+  if (hx < lx) { ps = 1; pts.emplace_back(0, 0); return pts; }
   if (rect && (hx - lx) * (hy - ly) <= 400) {           // every unit cell centre, doubled coordinates
     ps = 2;
     for (int64_t i = lx; i < hx; ++i) for (int64_t j = ly; j < hy; ++j) pts.emplace_back(2 * i + 1, 2 * j + 1);
@@ -38,18 +38,22 @@ static void run_case(std::ostream& os, uint64_t s0, long long id, const std::str
   std::set<int> reunioned;
   std::vector<int> cts = {1, 2, 3, 4}, frs = {0, 1, 2, 3}, pcs = {0, 1}, rss = {0, 1};
   if (cfg == "lite") { pcs = {0}; rss = {0}; }
-  bool first = true;
+  bool first = true; const bool batch = cfg == "batch"; std::vector<std::string> xs;
+  auto exec_ev = [&](int ct, int fr, int pc, int rs, int tree, bool ok, int k) {
+    if (batch) xs.push_back(jints({ct, fr, pc, rs, tree, ok, k}));
+    else os << Ev("Exec").kn("ct", ct).kn("fr", fr).kn("pc", pc).kn("rs", rs).kn("tree", tree).kn("ok", ok).kn("k", k).str() << "\n";
+  };
   for (int ct : cts) for (int fr : frs) for (int pc : pcs) for (int rs : rss) {
     ExecRes p = run_exec(ES, none, EC, ct, fr, pc, rs, nullptr); ++nexec;
     int k = reg.get(p.closed);
-    os << Ev("Exec").kn("ct", ct).kn("fr", fr).kn("pc", pc).kn("rs", rs).kn("tree", 0).kn("ok", p.ok).kn("k", k).str() << "\n";
+    exec_ev(ct, fr, pc, rs, 0, p.ok, k);
     if (cfg != "notree") {
       PolyTree64 tree; ExecRes t = run_exec(ES, none, EC, ct, fr, pc, rs, &tree); ++nexec;
       int kt = reg.get(t.closed);
-      os << Ev("Exec").kn("ct", ct).kn("fr", fr).kn("pc", pc).kn("rs", rs).kn("tree", 1).kn("ok", t.ok).kn("k", kt).str() << "\n";
+      exec_ev(ct, fr, pc, rs, 1, t.ok, kt);
       Paths64 nodes; std::vector<long long> par; flatten_tree(tree, 0, nodes, par);
       Paths64 lat;
-      if (unemb_paths(emb, nodes, lat) && reg.outs.size() && lat.size() <= 40)
+      if (!batch && unemb_paths(emb, nodes, lat) && lat.size() <= 40)
         os << Ev("Tree").kn("ct", ct).kn("fr", fr).kn("pc", pc).kn("rs", rs).kn("ok", t.ok).kn("k", k).kn("openeq", p.open == t.open).kv("nodes", jpaths(lat)).kv("par", jints(par)).str() << "\n";
     }
     if (reunion && emb.m == 1 && !reunioned.count(k * 4 + pc * 2 + rs)) {
@@ -62,9 +66,10 @@ static void run_case(std::ostream& os, uint64_t s0, long long id, const std::str
     if (first) {   // NoClip once per case (C11)
       first = false;
       ExecRes z = run_exec(ES, none, EC, 0, fr, pc, rs, nullptr); ++nexec;
-      os << Ev("Exec").kn("ct", 0).kn("fr", fr).kn("pc", pc).kn("rs", rs).kn("tree", 0).kn("ok", z.ok).kn("k", reg.get(z.closed)).str() << "\n";
+      exec_ev(0, fr, pc, rs, 0, z.ok, reg.get(z.closed));
     }
   }
+  if (batch) os << Ev("Execs").kv("x", jarr(xs.begin(), xs.end(), [](const std::string& t) { return t; })).str() << "\n";
 }
 
 // vh bool --fam gps|ladder|walk|in --seed S --n N --emb 0,1 --npts 200 --cfg full|lite|notree --reunion 0|1 --in file --out file
@@ -76,7 +81,8 @@ static int cmd_bool(const Args& a) {
   std::vector<long long> embs = argl(a, "emb", "0");
   std::ofstream os(args(a, "out", "/dev/stdout"));
   long long nexec = 0, ncase = 0;
-  auto emit = [&](const Paths64& S, const Paths64& C) { for (long long e : embs) run_case(os, s0, ++ncase, fam, S, C, emb_table()[e], npts, cfg, reunion, nexec); };
+  const int64_t mul = argi(a, "mul", 1);
+  auto emit = [&](Paths64 S, Paths64 C) { if (mul != 1) { for (auto* ps : {&S, &C}) for (auto& p : *ps) for (auto& q : p) { q.x *= mul; q.y *= mul; } } for (long long e : embs) run_case(os, s0, ++ncase, fam, S, C, emb_table()[e], npts, cfg, reunion, nexec); };
   Paths64 S, C;
   if (fam == "gps") { for (long long i = 0; i < n; ++i) if (gen_gps(r, R, (int)argi(a, "maxpaths", 2), (int)argi(a, "maxv", 6), S, C)) emit(S, C); }
   else if (fam == "ladder") { for (int ws = -3; ws <= 3; ++ws) for (int wc = -3; wc <= 3; ++wc) for (int d = 0; d < 2; ++d) { gen_ladder(ws, wc, d, S, C); emit(S, C); } }
@@ -86,6 +92,27 @@ static int cmd_bool(const Args& a) {
       int ns = (int)r.range(1, 2), nc = (int)r.range(0, 2);
       for (int k = 0; k < ns; ++k) S.push_back(rect_walk(r, g, (int)r.range(2, 5), deg));
       for (int k = 0; k < nc; ++k) C.push_back(rect_walk(r, g, (int)r.range(2, 5), deg));
+      emit(S, C); }
+  } else if (fam == "nest") {   // deep nesting: recursive boxes, alternating orientation, random split between subject and clip
+    for (long long i = 0; i < n; ++i) { S.clear(); C.clear(); bool diamond = false;
+      std::function<void(int64_t, int64_t, int64_t, int64_t, int)> rec = [&](int64_t x0, int64_t y0, int64_t x1, int64_t y1, int d) {
+        if (x1 - x0 < 6 || y1 - y0 < 6 || d > 5) return;
+        Path64 p = {{x0, y0}, {x1, y0}, {x1, y1}, {x0, y1}}; if (d % 2) std::reverse(p.begin(), p.end());
+        (r.range(0, 3) ? S : C).push_back(p);
+        int64_t cx0 = x0 + 3, cx1 = x1 - 3; if (cx1 - cx0 < 6) return;
+        int kids = (int)r.range(1, 2); int64_t w = (cx1 - cx0 - 3 * (kids - 1)) / kids;
+        for (int k = 0; k < kids; ++k) if (r.range(0, 5)) rec(cx0 + k * (w + 3), y0 + 3, cx0 + k * (w + 3) + w, y1 - 3, d + 1);
+      };
+      (void)diamond; rec(0, 0, 60, 40, 0); if (S.empty()) { S = C; C.clear(); } emit(S, C); }
+  } else if (fam == "degen") {  // arbitrary / degenerate inputs: only the "all inputs" clauses are judged by the spec
+    for (long long i = 0; i < n; ++i) { S.clear(); C.clear();
+      auto dp = [&]() { Path64 p; int nv = (int)r.range(0, 7); int g = (int)r.range(2, 9);
+        for (int k = 0; k < nv; ++k) { Point64 q(r.range(0, g), r.range(0, g)); p.push_back(q); if (r.range(0, 4) == 0) p.push_back(q); if (r.range(0, 6) == 0 && p.size() > 1) p.push_back(p[p.size() - 2]); }
+        if (r.range(0, 5) == 0 && !p.empty()) p.push_back(p[0]);
+        return p; };
+      int ns = (int)r.range(0, 3), nc = (int)r.range(0, 2);
+      for (int k = 0; k < ns; ++k) S.push_back(dp());
+      for (int k = 0; k < nc; ++k) C.push_back(r.range(0, 4) == 0 && !S.empty() ? S[0] : dp());
       emit(S, C); }
   } else if (fam == "in") {
     std::ifstream in(args(a, "in", "")); std::string line; long long cnt = 0, skip = argi(a, "skip", 0), stride = argi(a, "stride", 1);
